@@ -63,3 +63,12 @@ CASES += [
       "                if save:\n                    self.data[1,:,:,:,:] = self.Udt[:,:,:,:]\n                else:\n                    self.data[:,:,:,:] = self.Udt[:,:,:,:]\n",
       "                if save:\n                    self.data[1,:,:,:,:] = self.Udt[:,:,:,:]\n                else:\n                    self.data[:,:,:,:] = self.Udt[:,:,:,:]\n                    self.Udt = self.data\n"),
 ]
+
+SO = "quantarhei/qm/liouvillespace/superoperator.py"
+CASES += [
+    {"name": "time-resolved superoperator: right index pair transformed like the left one", "kind": "mutant", "rule": "C08-F", "edits": [
+        (SO, "numpy.dot(SS.T,numpy.dot(self._data[tt,a,b,:,:],S1.T))", "numpy.dot(S1,numpy.dot(self._data[tt,a,b,:,:],SS))", 1)]},
+    {"name": "single-time superoperator: right index pair via einsum", "kind": "twin", "edits": [
+        (SO, "                    self._data[a,b,:,:] = \\\n                    numpy.dot(SS.T,numpy.dot(self._data[a,b,:,:],S1.T))",
+         "                    self._data[a,b,:,:] = \\\n                    numpy.einsum('cx,cd,yd->xy', SS, self._data[a,b,:,:], S1)", 1)]},
+]
